@@ -21,15 +21,16 @@ struct Mode {
   Environment env;
   CodeHolder code;
   x86::Assembler* a = nullptr;
-  void init(int b) {
-    bits = b;
+  uint64_t base = Globals::kNoBaseAddress;
+  void init(int b, uint64_t base_address = Globals::kNoBaseAddress) {
+    bits = b; base = base_address;
     env = Environment(b == 64 ? Arch::kX64 : Arch::kX86);
     reset();
   }
   void reset() {
     delete a;
     code.reset();
-    code.init(env);
+    code.init(env, base);
     a = new x86::Assembler(&code);
     a->add_diagnostic_options(DiagnosticOptions::kValidateAssembler);
   }
@@ -50,7 +51,12 @@ static void execute(Mode& md, Obs& ob) {
   Label fwdLabel; int fwdIdx = -1;
   for (size_t j = 0; j < n; j++) {
     Opd& o = ob.ops[j];
-    if (!build_operand(o, ops[j])) {
+    if (o.t == 'l' && o.abs) {
+      // absolute target address: base + offset of the instruction start + delta (the CodeHolder of this mode has a known base address)
+      o.id = o.fwd ? o.pad : -o.pad;
+      ops[j] = Imm(int64_t(md.base + a.offset() + uint64_t(int64_t(o.id))));
+    }
+    else if (!build_operand(o, ops[j])) {
       Label L = a.new_label();
       if (o.fwd) { fwdLabel = L; fwdIdx = int(j); }
       else {
@@ -62,6 +68,7 @@ static void execute(Mode& md, Obs& ob) {
     }
   }
   if (ob.eo & 1) a.add_encoding_options(EncodingOptions::kOptimizeForSize); else a.clear_encoding_options(EncodingOptions::kOptimizeForSize);
+  if (ob.eo & 2) a.add_encoding_options(EncodingOptions::kPredictedJumps); else a.clear_encoding_options(EncodingOptions::kPredictedJumps);
   a.set_inst_options(inst_options(ob));
   if (ob.k) a.set_extra_reg(x86::k(ob.k)); else a.reset_extra_reg();
   size_t before = a.offset();
@@ -108,12 +115,18 @@ int main(int argc, char** argv) {
   vj::Rng rng(vj::env_seed());
   g_gen.rng = &rng;
   g_gen.cross = true;
-  Mode m32, m64; m32.init(32); m64.init(64);
+  Mode m32, m64, m32b, m64b; m32.init(32); m64.init(64);
+  m32b.init(32, 0x10000000ull); m64b.init(64, 0x0000123400000000ull);      // known base address: absolute branch targets
+  auto pick = [&](const Inst& in) -> Mode& {
+    bool abs = false;
+    for (const Opd& o : in.ops) if (o.t == 'l' && o.abs) abs = true;
+    return in.m == 64 ? (abs ? m64b : m64) : (abs ? m32b : m32);
+  };
   if (cmd == "replay") {
     FILE* out = fopen(argv[3], "w");
     for (const vj::Value& v : vj::read_ndjson(argv[2])) {
       Obs ob; static_cast<Inst&>(ob) = read_request(v);
-      run_one(ob.m == 64 ? m64 : m32, ob, out);
+      run_one(pick(ob), ob, out);
     }
     fclose(out);
     return 0;
@@ -128,7 +141,7 @@ int main(int argc, char** argv) {
     size_t rot = size_t(vj::env_seed() * 7 + f.id);
     for (int pass = 0; pass < 2; pass++) {
       Mode& md = pass == 0 ? m64 : m32;
-      instantiate(f, md.bits, rot + (pass ? 3 : 0), [&](Inst& in) { Obs ob; static_cast<Inst&>(ob) = in; run_one(md, ob, out); });
+      instantiate(f, md.bits, rot + (pass ? 3 : 0), [&](Inst& in) { Obs ob; static_cast<Inst&>(ob) = in; run_one(pick(ob), ob, out); });
     }
   }
   fclose(out);
